@@ -28,19 +28,24 @@ SUITES = {
     "C01": [("c01", ("check", "day schedule:")), ("c01d", ("check", "dated range:"))],
     "C02": [("c02", ("check", "stream:")), ("c02d", ("check", "hint:")), ("c02e", ("check", "expression hint:"))],
     "C03": [("c03", ("check", ""))],
-    "C04": [("c14", ("panic", "")), ("c01", ("panic", "")), ("c03", ("panic", "")), ("c02", ("panic", "")), ("c08", ("panic", "")), ("c16", ("panic", "")), ("c07", ("panic", "")), ("c09", ("panic", "")), ("c01d", ("panic", "")), ("c02d", ("panic", "")), ("c02e", ("panic", ""))],
+    # C04: a panic on any feasible path of any suite; quick runs the cheaper suites, thorough all of them
+    "C04": [("c14", ("panic", "")), ("c01", ("panic", "")), ("c01d", ("panic", "")), ("c02d", ("panic", "")), ("c08", ("panic", "")),
+            ("c03", ("panic", ""), "thorough"), ("c02", ("panic", ""), "thorough"), ("c16", ("panic", ""), "thorough"), ("c07", ("panic", ""), "thorough"),
+            ("c09", ("panic", ""), "thorough"), ("c02e", ("panic", ""), "thorough")],
     "C07": [("c07", ("check", "meaning:"))],
     "C08": [("c08", ("check", "bounds:")), ("c16", ("check", "bounds:"))],
     "C13": [("c07", ("check", "normalize:"))],
     "C09": [("c09", ("check", "zone:"))],
-    "C14": [("c14", ("check", ""))],
-    "C16": [("c16", ("check", "bound:"))],
-    "C17": [("c01", ("check", "comments:")), ("c02", ("check", "comments:"))],
+    "C14": [("c14", ("check", ("from_ranges:", "addition:", "iter:", "is_empty", "built schedule:")))],
+    "C16": [("c16", [("check", "bound:"), ("panic", "")])],
+    "C17": [("c14", ("check", "comments:")), ("c01", ("check", "comments:")), ("c02", ("check", "comments:"))],
     "C20": [("c20", ("check", ""))],
 }
 
 
 def _belongs(v, flt):
+    if isinstance(flt, list):
+        return any(_belongs(v, f) for f in flt)
     kind, prefix = flt
     if v.get("kind") != kind:
         return False
@@ -313,7 +318,7 @@ def finding_matches(entry, suite, template, violation):
 
 
 def run_property(prop, tier, out, jobs=16):
-    suites = SUITES.get(prop, [])
+    suites = [(e[0], e[1]) for e in SUITES.get(prop, []) if len(e) < 3 or e[2] == tier]
     if not suites:
         return
     out.coverage["engines"].append("S: substitution-based symbolic execution of /repo sources, z3 -in decides branches and assertions")
@@ -331,6 +336,8 @@ def run_property(prop, tier, out, jobs=16):
     try:
         bin_hash = hashlib.sha256(open(binary, "rb").read()).hexdigest()[:20]
         for suite, flt in suites:
+            if out.violations and os.environ.get("VERIF_FAILFAST") == "1":
+                break  # seeded-change campaigns only need the first confirmed violation
             outdir = os.path.join(CACHE, "sym-out", f"{prop}.{suite}.{os.getpid()}")
             shutil.rmtree(outdir, ignore_errors=True)
             os.makedirs(outdir)
